@@ -32,10 +32,19 @@ mod props;
 fn main() {
     let prop = std::env::args().nth(1).unwrap_or_default();
     eval::install_quiet_panic_hook();
+    if prop == "dump-full" || prop == "dump-neutral" {
+        // helper mode for C10: run in a fresh process on a project directory
+        let dir = std::path::PathBuf::from(std::env::args().nth(2).unwrap_or_default());
+        let out = if prop == "dump-full" { eval::full_dump(&dir) } else { eval::neutral_dump(&dir) };
+        use std::io::Write;
+        let _ = std::io::stdout().write_all(out.as_bytes());
+        std::process::exit(0);
+    }
     let ctx = vcommon::ctx::Ctx::from_env(&prop);
     match prop.as_str() {
         "C01" => props::c01::run(ctx),
         "C06" => props::c06::run(ctx),
+        "C10" => props::c10::run(ctx),
         "C19" => props::c19::run(ctx),
         "C20" => props::c20::run(ctx),
         "C11" => props::c11::run(ctx),
